@@ -35,6 +35,18 @@ PROPS = {
             "X: how FileManager is filled from the configuration (MainEventLoop::new); observing real files",
         ],
     },
+    "C17": {
+        "units": ["tacd"],
+        "design_ref": "DESIGN.md section 5 C17",
+        "technique": "Verus safety obligations on the per-connection closure and accept loop (macro-expanded), spawn requires the closure to be total",
+        "text": "Deductive proof that the per-connection thread body and the accept loop of tacd have no failing unwrap/index/"
+                "arithmetic obligation for any outcome of accept() and any sequence of incoming connections (Err streams are skipped).",
+        "assumptions": [
+            "T: SslAcceptor::accept may return Err for any reason (no assumption on the peer); threads spawn; OpenSSL does not abort internally",
+            "T: listener.incoming() is modelled as an arbitrary finite sequence (every finite prefix of the endless iterator)",
+            "X: resource exhaustion by stalled connections; the build profile (release, panic=abort) is read from Cargo.toml, not proved",
+        ],
+    },
     "C19": {
         "units": ["duration", "ratelimit"],
         "design_ref": "DESIGN.md section 5 C19",
